@@ -69,6 +69,10 @@ CLAIMED = {
    "Valid lineal and areal lattice geometries (every vertex sequence of length <=4 on 3x3 with >=2 distinct points incl. repeated consecutive vertices, closed rings, simple polygons, polygons with holes and mixed ring windings, multis and collections, Z/M tagged and float-image variants) x parameters enumerated from the property: Densify distances relative to the diameter; Simplify thresholds 0, every vertex-to-chord distance and its two ulp neighbours, the diameter; InterpolatePoint fractions -1, 0, 1, 2, +-Inf, k/8 and every cumulative-length breakpoint +-1 ulp; InterpolateEvenlySpacedPoints counts -1..50; SnapToGrid places -320..320 x 14 ordinates x sign; Reverse, ForceCW, ForceCCW. Each contract clause is checked with exact rationals / 200-bit floats (originals kept in order with payload, inserted points on segments, gaps, dropped vertices within t of the bracketing line, valid-or-error, finite interpolation at the exact arc position, oddness, half-step bound, finiteness and idempotence of snapping, involution, point-set and validity preservation, IsCW/IsCCW and idempotence).",
    "Trust: exact/ and math/big. Tolerances: 1e-11 x magnitude for interpolated positions, 64 ulp of the magnitude for densify gaps.",
    "bounded-exhaustive enumeration of inputs x parameters on the real code against exact-arithmetic contract oracles", "4/C17"),
+ "C18": ("model_checking",
+   "For every base geometry of a family (structural shapes x coordinate types x finite float classes from subnormal to 1e300) every mutant that differs in exactly one respect is generated (each ordinate one ulp up and down, adjacent members swapped, a member removed / duplicated / emptied, each line reversed, each closed line rotated by each offset, coordinate type changed, Point wrapped into a MultiPoint / collection) and ExactEquals is compared in both argument orders with (a) equality of an independent WKB encoding with -0 = +0 for the no-option form and (b) equality of an independent canonical form (members sorted, lines oriented, rings rotated) for IgnoreOrder; tolerance variants are checked for symmetry, monotonicity and the zero case; every permutation of up to 5 (thorough 6) members incl. duplicates equal up to rotation, chains under IgnoreOrder+ToleranceXY, and reflexive / symmetric / transitive laws on all triples of a 60-element family.",
+   "Trust: refcodec WKB writer and the canonical form in checks/c18.go.",
+   "bounded-exhaustive enumeration of geometries x one-respect mutants x permutations on the real code against independent identity oracles", "4/C18"),
 }
 
 PENDING = {}
